@@ -81,7 +81,7 @@ func runSched(worker, scenario string, prefix []int, k int, hb bool) (*schedOut,
 }
 
 type schedStats struct {
-	executions, points, blocked, maxPoints int64
+	executions, points, maxPoints int64
 	distinctOutcomes                       map[string]bool
 	distinctFinal                          map[string]bool
 	interleaved                            int64 // executions in which a thread had to wait for a sync object held by another
@@ -279,11 +279,11 @@ func exploreAll(worker string, scenarios []string, boundOf func(string) int, bas
 				}
 				ctx, cancel := context.WithTimeout(context.Background(), 3600*time.Second)
 				cmd := exec.CommandContext(ctx, worker, "-prop", "schedx", scenarios[i], strconv.Itoa(boundOf(scenarios[i])), strconv.Itoa(k), h, bfile)
-				defer cancel()
 				cmd.Env = append(goEnv(), "VERIF_DIR="+verifDir, "GOMAXPROCS=1")
 				var stderr bytes.Buffer
 				cmd.Stderr = &stderr
 				o, err := cmd.Output()
+				cancel()
 				if err != nil {
 					errs[i] = fmt.Errorf("in-process exploration of %s: %v: %s", scenarios[i], err, lastLines(stderr.String(), 4))
 					continue
